@@ -234,3 +234,18 @@ def generic_only(F, fns):
         if g is not None:
             out[d] = g
     return list(out.values())
+
+
+def infeasible_get_none(p):
+    """slice::get(i) is None iff i >= len: a path assuming both `i < len(X)` and `get(X, i) == None` is infeasible."""
+    from . import affine
+    nones = [t[1] for t, v in p.cons if t[0] == 'discr' and t[1][0] == 'get' and v == 0]
+    for g in nones:
+        for t, v in p.cons:
+            if t[0] == 'bin' and t[1] == 'Ge' and v == 0 and t[2] == g[2] and t[3][0] == 'len' and \
+                    affine.canon_coll(t[3][1]) == affine.canon_coll(g[1]):
+                return True
+            if t[0] == 'bin' and t[1] == 'Lt' and v != 0 and t[2] == g[2] and t[3][0] == 'len' and \
+                    affine.canon_coll(t[3][1]) == affine.canon_coll(g[1]):
+                return True
+    return False
